@@ -41,6 +41,13 @@ pub fn exec(op: &str, a: &Value) -> Option<Value> {
         "Opt.PlainDateTime.since" => run(|| arg_datetime(&o["a"])?.since(&arg_datetime(&o["b"])?, arg_settings(st)?), p_duration),
         "Opt.Instant.until" => run(|| arg_instant(&o["a"])?.until(&arg_instant(&o["b"])?, arg_settings(st)?), p_duration),
         "Opt.Instant.since" => run(|| arg_instant(&o["a"])?.since(&arg_instant(&o["b"])?, arg_settings(st)?), p_duration),
+        // both operands in UTC, or (oz) the argument in +01:00: the zones of the operands matter only when the resolved largest unit is a date unit
+        "Opt.ZonedDateTime.until" | "Opt.ZonedDateTime.since" => run(|| {
+            let oz = o.get("oz").and_then(|x| x.as_bool()).unwrap_or(false);
+            let z1 = ZonedDateTime::try_new(num(&o["a"]), iso(), TimeZone::try_from_str("UTC")?)?;
+            let z2 = ZonedDateTime::try_new(num(&o[if same { "a" } else { "b" }]), iso(), TimeZone::try_from_str(if oz { "+01:00" } else { "UTC" })?)?;
+            FS.with(|p| if op.ends_with("until") { z1.until_with_provider(&z2, arg_settings(st)?, p) } else { z1.since_with_provider(&z2, arg_settings(st)?, p) })
+        }, p_duration),
         "Opt.PlainYearMonth.until" => run(|| PlainYearMonth::from_str("2020-01")?.until(&PlainYearMonth::from_str(ym2)?, arg_settings(st)?), p_duration),
         "Opt.PlainYearMonth.since" => run(|| PlainYearMonth::from_str("2020-01")?.since(&PlainYearMonth::from_str(ym2)?, arg_settings(st)?), p_duration),
         "Opt.Duration.round" => run(|| {
